@@ -3,6 +3,8 @@
 //! A case is a space separated token list (every token can be deleted independently):
 //!   ka=os|off|<s>  D=<s>  T=<s>  wbs=<n>  q=<n>  hc=0|1          configuration
 //!   Q:<headlen>:<n|s<N>|c<n1>.<n2>…>:<hsteps|->:<N|Z|S<steps>|C<steps>>[:<csteps>]   one request
+//!       hsteps: p q r a d m  t (poll the body once, never block)  w (join the consumer task)
+//!       csteps: r d (one step per `c` event)  A (wake-driven read-to-end: a task of its own)
 //!   R<k> RP RE RX RZ     read script (k bytes available / barrier / EOF / reset / silent for ever)
 //!   W<k> W0 WP           write script (accept ≤k / write zero / barrier); exhausted = accept all
 //!   FP FK  SP SK         flush / shutdown script (barrier / ready); exhausted = ready
@@ -59,7 +61,7 @@ fn parse_req(tok: &str) -> Option<Req> {
         return None;
     };
     let hsteps: Vec<u8> = if p[3] == "-" { vec![] } else { p[3].bytes().collect() };
-    if !hsteps.iter().all(|c| b"pqradm".contains(c)) {
+    if !hsteps.iter().all(|c| b"pqradmtw".contains(c)) {
         return None;
     }
     let resp = match p[4].as_bytes().first()? {
@@ -76,7 +78,7 @@ fn parse_req(tok: &str) -> Option<Req> {
         _ => return None,
     };
     let csteps: Vec<u8> = if p.len() == 6 { p[5].bytes().collect() } else { vec![] };
-    if !csteps.iter().all(|c| b"rd".contains(c)) {
+    if !csteps.iter().all(|c| b"rdA".contains(c)) {
         return None;
     }
     Some(Req { head_len, body, hsteps, resp, csteps })
@@ -343,6 +345,9 @@ fn run(line: &str) -> CaseResult {
     }
     if case.reqs.iter().any(|q| q.hsteps.contains(&b'm')) {
         res.tags.push("payload-moved".into());
+    }
+    if case.reqs.iter().any(|q| q.hsteps.contains(&b'm') && q.csteps.contains(&b'A')) {
+        res.tags.push("payload-handed-to-woken-task".into());
     }
     if r.trace.iter().any(|t| t == "t") {
         res.tags.push("timer-fired".into());
@@ -759,19 +764,105 @@ fn gen_backpressure(rng: &mut Rng) -> String {
     t.join(" ")
 }
 
+/// hand-over flavour: the handler polls the request body itself (one chunk with `r`, or to
+/// Pending with `t`) and then moves the payload to a consumer *task of its own* (`A`: polled only
+/// when its own waker fired) and joins it (`w`); the rest of the body arrives after the hand-over.
+/// The payload channel has to wake the task that polled it last.
+fn gen_handover(rng: &mut Rng) -> String {
+    let mut t: Vec<String> = Vec::new();
+    if rng.chance(1, 3) {
+        t.push("ka=5".into());
+    }
+    if rng.chance(1, 5) {
+        t.push(format!("q={}", rng.pick(&[7usize, 100, 1000])));
+    }
+    let total = *rng.pick(&[600usize, 3000, 9000, 40000, 70000]);
+    let body = if rng.chance(1, 2) {
+        ReqBody::Sized(total)
+    } else {
+        let a = rng.range(1, total - 1);
+        ReqBody::Chunked(if rng.chance(1, 2) { vec![a, total - a] } else { vec![total] })
+    };
+    let bs = match &body {
+        ReqBody::Sized(n) => format!("s{}", n),
+        ReqBody::Chunked(v) => format!("c{}", v.iter().map(|n| n.to_string()).collect::<Vec<_>>().join(".")),
+        ReqBody::None => "n".into(),
+    };
+    let hs = *rng.pick(&["rmw", "tmw", "rrmw", "trmw", "mw", "prmw", "rmqw", "tmwq", "rtmw", "qrmw", "rmw", "tmw"]);
+    let cs = *rng.pick(&["A", "A", "Ad", "rA", "A"]);
+    let resp = match rng.below(4) {
+        0 => "Z".to_owned(),
+        1 => format!("C{}", gen_bsteps(rng, false)),
+        _ => format!("S{}", gen_bsteps(rng, false)),
+    };
+    let hl = min_head_len(0, &body) + rng.below(30);
+    t.push(format!("Q:{}:{}:{}:{}:{}", hl, bs, hs, resp, cs));
+    let mut wire = hl
+        + match &body {
+            ReqBody::Sized(n) => *n,
+            ReqBody::Chunked(v) => v.iter().map(|n| hexlen(*n) + 2 + n + 2).sum::<usize>() + 5,
+            ReqBody::None => 0,
+        };
+    if rng.chance(1, 4) {
+        let (q2, wl) = gen_req(rng, 1, false, false);
+        t.push(q2);
+        wire += wl;
+    }
+    // the head and a first piece of the body, then the rest in pieces, each behind a barrier
+    let first = hl + rng.range(0, (total / 2).max(1));
+    let mut left = wire;
+    let k = first.min(left);
+    t.push(format!("R{}", k));
+    left -= k;
+    t.push("RP".into());
+    for _ in 0..rng.range(1, 3) {
+        if left == 0 {
+            break;
+        }
+        let k = rng.range(1, left);
+        t.push(format!("R{}", k));
+        left -= k;
+        t.push("RP".into());
+    }
+    if rng.chance(1, 12) {
+        t.push("RX".into());
+    } else if rng.chance(1, 8) {
+        t.push("RZ".into());
+    }
+    for _ in 0..rng.below(3) {
+        t.push(match rng.below(3) {
+            0 => "WP".into(),
+            1 => "FP".into(),
+            _ => format!("W{}", rng.range(1, 200)),
+        });
+    }
+    let n = rng.below(6);
+    if n > 0 {
+        let letters = "rrrhcb";
+        let e: String = (0..n).map(|_| letters.as_bytes()[rng.below(letters.len())] as char).collect();
+        t.push(format!("E:{}", e));
+    }
+    t.join(" ")
+}
+
 fn gen(ctx: &Ctx) -> Vec<String> {
     let mut rng = Rng::new(ctx.seed);
     let mut cases = Vec::new();
     let n = ctx.budget(2000);
     for i in 0..n {
         let flavour = match i % 10 {
-            0..=2 => 0,
+            0..=1 => 0,
+            2 => 5,
             3..=5 => 1,
             6 => 2,
             7 => 3,
             _ => 4,
         };
-        cases.push(if flavour == 4 { gen_backpressure(&mut rng) } else { gen_case(&mut rng, flavour) });
+        cases.push(match flavour {
+            4 => gen_backpressure(&mut rng),
+            5 => gen_handover(&mut rng),
+            _ => gen_case(&mut rng, flavour),
+        });
     }
     let _ = Tier::Quick;
     cases
